@@ -49,6 +49,7 @@ const (
 	AVHeartbeat
 	AVSendSnap
 	AVClosePhase
+	ASnapRewrite
 	numActKinds
 )
 
@@ -58,7 +59,7 @@ var actNames = [...]string{
 	"Propose", "ConfChange", "ReadIndex", "Transfer", "Campaign", "ForgetLeader",
 	"Unreachable", "SnapReport", "Compact", "Crash", "Restart", "Partition", "Heal",
 	"SnapFault", "Stop", "Checkpoint", "HealPhase",
-	"VElect", "VPropose", "VReplicate", "VCommit", "VCompact", "VSendApp", "VHeartbeat", "VSendSnap", "VClosePhase",
+	"VElect", "VPropose", "VReplicate", "VCommit", "VCompact", "VSendApp", "VHeartbeat", "VSendSnap", "VClosePhase", "SnapRewrite",
 }
 
 func (k ActKind) String() string {
@@ -113,6 +114,7 @@ type CCSpec struct {
 //	Partition{Part = list of groups; nodes in different groups cannot exchange newly sent messages; B=one-way (group 0 cannot send to others)}
 //	Heal{}
 //	SnapFault{N, I=number of Storage.Snapshot calls that return ErrSnapshotTemporarilyUnavailable}
+//	SnapRewrite{N}: the application repeats the write of the snapshot it installed last (an idempotent retry); Storage must refuse it as out of date
 //	Stop{N} (node leaves for good)
 //	Checkpoint{N} application checkpoints its state machine durably
 //	VElect{N} VPropose{N,Tags=[tag],I=size} VReplicate{N=leader,M=peer,I=back-off} VCommit{N} VCompact{N,I=back-off}
